@@ -3029,6 +3029,26 @@ func ruleSizePrecedence(r *Run) {
 		return
 	}
 	cmpField := func(v ssa.Value) string {
+		// a predicate on the field (hasWidth := usableSizeMM(size.Width)) is a test of that field too
+		if c, ok := v.(*ssa.Call); ok {
+			if cal := staticCallee(c); cal != nil && p.inModule(cal) && cal.Signature.Results().Len() == 1 {
+				if b, ok := cal.Signature.Results().At(0).Type().Underlying().(*types.Basic); ok && b.Kind() == types.Bool {
+					for _, a := range c.Call.Args {
+						var fv *types.Var
+						switch x := a.(type) {
+						case *ssa.UnOp:
+							fv, _ = fieldOfAddr(x.X)
+						case *ssa.Field:
+							fv, _ = fieldOfVal(x)
+						}
+						if fv != nil && (fieldIs(p, fv, pkgDoc, "ImageSize", "Width") || fieldIs(p, fv, pkgDoc, "ImageSize", "Height")) {
+							return fv.Name()
+						}
+					}
+				}
+			}
+			return ""
+		}
 		bo, ok := v.(*ssa.BinOp)
 		if !ok || bo.Op != token.GTR {
 			return ""
